@@ -149,7 +149,7 @@ func (th TableHeader) Data() []byte {
 	// set reserved bits to 11
 	data[1] |= 0x30 // 0011 0000
 
-	data[1] |= byte(th.SectionLength>>8) & 0x03 // 0000 0011
+	data[1] |= byte(th.SectionLength>>8) & 0x0F // 0000 1111, section_length is a 12 bit field
 	data[2] = byte(th.SectionLength)
 
 	return data
